@@ -44,6 +44,39 @@ def lateOkPrefix (model impl : List Send) (wake : List Time) : Bool :=
   dsts.all fun d =>
     lateOkDstPrefix wake ((model.filter fun s => (s.mc, s.host) == d).map (·.t)) ((impl.filter fun s => (s.mc, s.host) == d).map (·.t))
 
+/-- the instants at which the scheduler calls `Schedule` / `Delay` (every unicast request; a multicast
+    request unless it is dropped or coalesced into a pending transmission) -/
+def schedCalls (minDelay : Dur) (unicastOnly : Bool) : SchedState → List (Time × Req) → List Time
+  | _, [] => []
+  | s, (t, r) :: rest =>
+    let (s', o) := schedStep minDelay unicastOnly s t r 0
+    match o with
+    | some _ => t :: schedCalls minDelay unicastOnly s' rest
+    | none => schedCalls minDelay unicastOnly s' rest
+
+/-- K-2, second face: the monitor goroutine was not waiting when `Schedule` signalled it — possible
+    only when the call coincides with another wake-up of the monitor (its start, a timer that fires or
+    another call at the same virtual instant) — and nothing wakes it afterwards (no later call, no
+    other timer): the task due at `t` is never started before the run is stopped. -/
+def lostable (calls fires : List Time) (stop t : Time) : Bool :=
+  calls.any fun e => decide (e ≤ t) &&
+    (e == 0 || fires.contains e || decide ((calls.filter (· == e)).length ≥ 2)) &&
+    !((calls ++ fires).any fun w => decide (e < w) && decide (w < stop) && w != t)
+
+/-- as `lateOkDst`, and the last transmission to a destination may be missing when `lost` allows -/
+def lateOrLostDst (wake : List Time) (lost : Time → Bool) : List Time → List Time → Bool
+  | [], [] => true
+  | [t], [] => lost t
+  | t :: ts, t' :: ts' => (t' == t || (decide (t < t') && wake.contains t')) && lateOrLostDst wake lost ts ts'
+  | _, _ => false
+
+def lateOrLost (model impl : List Send) (wake calls : List Time) (stop : Time) : Bool :=
+  let fires := model.map (·.t)
+  let dsts := (model ++ impl).map (fun s => (s.mc, s.host)) |>.eraseDups
+  dsts.all fun d =>
+    lateOrLostDst wake (lostable calls fires stop)
+      ((model.filter fun s => (s.mc, s.host) == d).map (·.t)) ((impl.filter fun s => (s.mc, s.host) == d).map (·.t))
+
 def lostNote : String :=
   "class=schedgroup-lost-wakeup a scheduled transmission fired late, at the scheduler's next wake-up (lost wake-up in mdlayher/schedgroup.Schedule)"
 
@@ -94,7 +127,8 @@ def sch6 (c impl : List String) : Option Verdict := do
   let close := triggers.zip triggers.tail |>.any fun (a, b) => decide (b - a < 6 * second)
   let m := schModel cs
   let exact := i.ok && i.writes == m
-  let late := !exact && i.ok && lateOk m i.writes (cs.evs.map (·.1) ++ m.map (·.t))
+  let calls := schedCalls Gen.Advertise.minDelayBetweenRAs cs.unicastOnly { next := 0 } (cs.evs.map toReq)
+  let late := !exact && i.ok && lateOrLost m i.writes (cs.evs.map (·.1) ++ m.map (·.t)) calls cs.stop
   pure { model := schCommon cs, oracle := ok, nontrivial := close && !cs.unicastOnly,
          note := if late && !ok then lostNote else "",
          agreeOverride := if late then some true else none }
@@ -110,7 +144,8 @@ def sch7 (c impl : List String) : Option Verdict := do
   let busy := rs.any fun r => cs.evs.any fun e => e != r && decide (r.1 ≤ e.1) && decide (e.1 < r.1 + 500 * ms)
   let m := schModel cs
   let exact := i.ok && i.writes == m
-  let late := !exact && i.ok && lateOk m i.writes (cs.evs.map (·.1) ++ m.map (·.t))
+  let calls := schedCalls Gen.Advertise.minDelayBetweenRAs cs.unicastOnly { next := 0 } (cs.evs.map toReq)
+  let late := !exact && i.ok && lateOrLost m i.writes (cs.evs.map (·.1) ++ m.map (·.t)) calls cs.stop
   pure { model := schCommon cs, oracle := ok, nontrivial := busy,
          note := if late && !ok then lostNote else "",
          agreeOverride := if late then some true else none }
@@ -185,7 +220,8 @@ def advLate (c : AdvCase) (i : ImplAdv) : Bool :=
   -- with a scripted failing transmission the n-th write (in call order) fails; lateness can change
   -- which transmission that is, so only the destinations/instants and the outcome are compared
   implW != m && i.status == modelStatus && (implW.filter (·.failed)).length == (m.filter (·.failed)).length &&
-    (decide (c.failWrite < 0) && lateOk (m.map toSend) (implW.map toSend) ((allRequests c).map (·.1) ++ m.map (·.t)) ||
+    (decide (c.failWrite < 0) && lateOrLost (m.map toSend) (implW.map toSend) ((allRequests c).map (·.1) ++ m.map (·.t))
+        (schedCalls Gen.Advertise.minDelayBetweenRAs c.unicastOnly { next := 0 } (allRequests c)) c.stop ||
      decide (c.failWrite ≥ 0) && lateOkPrefix (m.map toSend) (implW.map toSend) ((allRequests c).map (·.1) ++ m.map (·.t) ++ implW.map (·.t)))
 
 /-- `adv6 …` — C06 on a full advertiser run -/
@@ -241,8 +277,14 @@ def rein (c impl : List String) : Option Verdict := do
   let model := s!"1 {want.length}" ++ String.join (want.map fun t => s!" {t}")
   let spaced := (ts.zip ts.tail).all fun (a, b) => decide (b - a ≥ Gen.Advertise.minDelayBetweenRAs)
   let ok := redialled && spaced && ts == want
+  -- K-2 at start-up: the loop's first request is scheduled at the instant the scheduler's monitor
+  -- goroutine starts; when that wake-up is lost the RA due MIN_DELAY_BETWEEN_RAS later is only
+  -- transmitted at the monitor's next wake-up (the loop's next request), or not before the window ends
+  let calls := want.filter (· != Gen.Advertise.minDelayBetweenRAs)
+  let late := redialled && ts != want && lateOrLostDst want (lostable calls want window) want ts
   pure { model := model, oracle := ok, nontrivial := true,
-         note := if !redialled then "a link-state change did not re-establish the interface"
+         agreeOverride := if late then some true else none,
+         note := if late then lostNote else if !redialled then "a link-state change did not re-establish the interface"
            else if !spaced then "multicast RAs of the re-initialised interface are less than MIN_DELAY_BETWEEN_RAS apart"
            else if ts != want then "the re-initialised interface does not advertise like a freshly initialised one (initial RA at once, the next MIN_DELAY_BETWEEN_RAS later)"
            else "" }
